@@ -92,6 +92,7 @@ fn gen(rng: &mut Rng, tier: Tier) -> Vec<Case> {
             for k in 0..4u64 { h.init.push((s0 + 2 * k, s0 + 2 * k + 2, 700 + k)); }
             if rng.chance(1, 2) { h.init.push((s0, s0 + 40, 800)); }
         }
+        if i % 6 == 5 { h.lift_to_top(rng.below(3)); } // at the top of the coordinate type
         let a = around(&h.endpoints());
         let mut qs = vec![];
         for _ in 0..(if small { 12 } else { 20 }) { let s = *rng.pick(&a); let e = *rng.pick(&a); if s < e { qs.push((s, e)); } }
@@ -106,7 +107,7 @@ fn gen(rng: &mut Rng, tier: Tier) -> Vec<Case> {
 pub fn prop() -> PropDef {
     PropDef {
         id: "C18",
-        rule: "corpus, then histories new/insert*/merge_overlaps/set_cov in any order and number over non-empty intervals (small: 0-7 intervals + book-ended chains and a spanning interval, coordinates 0..60; large: 5-100 intervals, offsets up to u64::MAX-1e5); observed: iter, cov, find/count/seek for queries with endpoints in {e-1,e,e+1} ∪ {0}; then one more merge_overlaps (iter, cov), a second one (idempotence), then the insert of a probe interval into the merged set followed by find/count. Non-trivial: two supplied intervals touch/overlap/nest and the history contains a merge. Thorough adds the exhaustive small scope: every sequence of <= 3 non-empty intervals over 0..=4 in several histories with merges, every query. Distinct = distinct input token sequence.",
+        rule: "corpus, then histories new/insert*/merge_overlaps/set_cov in any order and number over non-empty intervals (small: 0-7 intervals + book-ended chains and a spanning interval, coordinates 0..60; large: 5-100 intervals, offsets up to u64::MAX-1e5); every sixth history lifted to the top of u64; observed: iter, cov, find/count/seek for queries with endpoints in {e-1,e,e+1} ∪ {0}; then one more merge_overlaps (iter, cov), a second one (idempotence), then the insert of a probe interval into the merged set followed by find/count. Non-trivial: two supplied intervals touch/overlap/nest and the history contains a merge. Thorough adds the exhaustive small scope: every sequence of <= 3 non-empty intervals over 0..=4 in several histories with merges, every query. Distinct = distinct input token sequence.",
         observable: "Lapper::{iter,cov,find,count,seek} before and after merge_overlaps, merge twice, insert after merge",
         gen, exec, shrink, child: None,
     }
